@@ -791,6 +791,7 @@ def check_property(prop, tier="quick", repo=None, only_unit=None, only_target=No
                 json.dump(doc, fh, indent=1)
             if k:
                 known_hits.append((k, f))
+                n_obl -= 1        # reported separately: an obligation explained by a listed finding is neither discharged nor open
                 continue
             if ".unwind." in f["name"] or f["description"].startswith("unwinding assertion"):
                 # the unwinding bound was too small for this code: a limit of the bounded stand-in, not a violation
@@ -812,8 +813,8 @@ def check_property(prop, tier="quick", repo=None, only_unit=None, only_target=No
     for k, f in known_hits:
         if k["_line"] not in printed:           # one line per listed finding, however many obligations it explains
             printed.add(k["_line"])
-            print("KNOWN-FINDING: property=%s %s" % (prop, k["_line"][len("finding: "):]
-                                                    if k["_line"].startswith("finding: ") else k["_line"]))
+            rest = re.sub(r"^finding:\s*property=\S+\s*", "", k["_line"])
+            print("KNOWN-FINDING: property=%s %s" % (prop, rest))
     seen = set()
     for path, status, f, label in violations:
         key = label
@@ -929,7 +930,8 @@ def write_evidence_file(prop, tier, seed, units, per_target, n_obl, n_ok, sample
             "reachability_checks": {"total": reach_total, "reached": reach_ok},
             "source_hashes": {u.name: u.src_hash for u in units},
             "undecided": undecided,
-            "known_findings_hit": [k["_line"] for k, _ in known_hits],
+            "known_findings_hit": sorted(set(k["_line"] for k, _ in known_hits)),
+            "obligations_failed_by_known_findings": [f["name"] + ": " + f["description"] for _, f in known_hits],
             "solver_time_s": round(sum(t.get("cbmc_s", 0) for t in per_target), 2),
             "explanation": "obligations = safety checks + contract pre/postconditions + loop-invariant "
                            "base/step/decreases + assigns-clause checks generated by goto-instrument on the "
